@@ -703,26 +703,40 @@ Qed.
 (* 10. props.influence / avg_sensitivity / sensitize relative to exact model counting and a sound+complete solver *)
 (* exact model counting projected on the startpoints (sat.model_count blocks on the startpoints only) *)
 Definition mc_exact (mc : circuit → list (string * bool) → nat) : Prop :=
-  ∀ T asm (l : list string) (P : val → bool), NoDup l → list_to_set l = startpoints T →
-    (∀ ρ, P ρ = true ↔ ∃ v, consistent T v ∧ (∀ s, s ∈ l → v s = ρ s) ∧ Forall (λ p : string * bool, v p.1 = p.2) asm) →
-    mc T asm = length (filter (λ ρ, P ρ = true) (all_vals l)).
+  ∀ T asm (P : val → bool), closed T → acyclic T → free_nodes T = startpoints T → (∀ p, p ∈ asm → p.1 ∈ dom T) →
+    (∀ ρ, P ρ = true ↔ ∃ v, consistent T v ∧ (∀ s, s ∈ startpoints T → v s = ρ s) ∧ Forall (λ p : string * bool, v p.1 = p.2) asm) →
+    mc T asm = length (filter (λ ρ, P ρ = true) (all_vals (elements (startpoints T)))).
 (* what the props functions need from a sensitization circuit T for node x and endpoints E of c *)
 Record sens_spec (c : circuit) (x : string) (E : list string) (sp : list string) (T : circuit) : Prop := {
-  sp_start : list_to_set sp = startpoints T;
-  sp_ext : ∀ ρ : val, ∃ v, consistent T v ∧ ∀ s, s ∈ sp → v s = ρ s;
+  sp_start : elements (startpoints T) = sp;
+  sp_closed : closed T;
+  sp_acyclic : acyclic T;
+  sp_free : free_nodes T = startpoints T;
+  sp_satnode : "sat" ∈ dom T;
   sp_sat : ∀ (ρ v : val), consistent T v → (∀ s, s ∈ sp → v s = ρ s) → (v "sat" = true ↔ sens_at c x E ρ) }.
+Lemma sp_ext c x E sp T : sens_spec c x E sp T → ∀ ρ : val, ∃ v, consistent T v ∧ ∀ s, s ∈ sp → v s = ρ s.
+Proof.
+  intros H ρ. destruct (unique_extension T (sp_closed _ _ _ _ _ H) (sp_acyclic _ _ _ _ _ H) ρ) as (v & Hv & Hag & _).
+  exists v. split; [done|]. intros s Hs. apply Hag. rewrite (sp_free _ _ _ _ _ H).
+  rewrite <- (sp_start _ _ _ _ _ H) in Hs. by apply elem_of_elements in Hs.
+Qed.
 
-Theorem influence_spec mc c n sp s i T : mc_exact mc → NoDup sp →
+Theorem influence_spec mc c n sp s i T : mc_exact mc →
   c !! s = Some i → n_ty i = Input → n_fi i = ∅ → sens_spec c s [n] sp T →
   frac (mc T [("sat", true)]) (length sp) = influence_def c n sp s.
 Proof.
-  intros Hmc Hnd Hs Ht Hf Hsp. unfold influence_def. f_equal.
-  apply (Hmc T _ sp (flipsb c n s) Hnd (sp_start _ _ _ _ _ Hsp)). intros ρ.
+  intros Hmc Hs Ht Hf Hsp. unfold influence_def. f_equal.
+  rewrite <- (sp_start _ _ _ _ _ Hsp).
+  apply (Hmc T _ (flipsb c n s) (sp_closed _ _ _ _ _ Hsp) (sp_acyclic _ _ _ _ _ Hsp) (sp_free _ _ _ _ _ Hsp)).
+  { intros p ->%elem_of_list_singleton. apply (sp_satnode _ _ _ _ _ Hsp). }
+  intros ρ.
+  assert (Hin : ∀ y, y ∈ sp ↔ y ∈ startpoints T) by (intros y; rewrite <- (sp_start _ _ _ _ _ Hsp); apply elem_of_elements).
   rewrite flipsb_true, <- (sens_at_input c s n ρ i Hs Ht Hf). split.
-  - intros Hsens. destruct (sp_ext _ _ _ _ _ Hsp ρ) as (v & Hv & Hag). exists v. split; [done|]. split; [done|].
+  - intros Hsens. destruct (sp_ext _ _ _ _ _ Hsp ρ) as (v & Hv & Hag). exists v. split; [done|].
+    split; [intros y Hy; apply Hag; by apply Hin|].
     constructor; [|done]. simpl. by apply (sp_sat _ _ _ _ _ Hsp ρ v).
   - intros (v & Hv & Hag & Hasm). apply Forall_cons in Hasm as [Hsat _]. simpl in Hsat.
-    by apply (sp_sat _ _ _ _ _ Hsp ρ v).
+    apply (sp_sat _ _ _ _ _ Hsp ρ v); [done| |done]. intros y Hy. apply Hag. by apply Hin.
 Qed.
 
 Lemma infl_fold (f : string → res Circuit) (g : Circuit → Q) l0 out :
@@ -755,7 +769,7 @@ Proof.
     - destruct p as [p1 p2]. simpl in *. subst p1. f_equal. rewrite Hp2.
       destruct (Hsp s T (Hall s ltac:(left)) HT) as [(i & Hi & Ht & Hfi) Hspec].
       change (size (cone_startpoints (c_g C) n)) with (length (elements (cone_startpoints (c_g C) n))).
-      eapply influence_spec; eauto. apply NoDup_elements.
+      eapply influence_spec; eauto.
     - apply IH. intros s' Hs'. apply Hall. by right. }
   apply Haux; [|done]. intros s. apply elem_of_elements.
 Qed.
@@ -808,17 +822,18 @@ Proof.
 Qed.
 
 (* sensitization circuit: SC is the mitered sub-circuit of c (c itself when no endpoints are selected) *)
-Theorem sens_spec_of_shape c SC x (E : gset string) sp T :
+Theorem sens_spec_of_shape c SC x (E : gset string) T :
   closed c → acyclic c → inputs_only c → sub_of SC c → x ∈ dom SC → E ⊆ dom SC →
   sens_shape SC x E T → closed T → acyclic T →
-  free_nodes T = list_to_set sp → startpoints T = list_to_set sp → inputs SC = list_to_set sp →
-  sens_spec c x (elements E) sp T.
+  free_nodes T = startpoints T → startpoints T = inputs SC →
+  sens_spec c x (elements E) (elements (startpoints T)) T.
 Proof.
-  intros Hcl Hac Hio Hsub Hx HE Hsh HclT HacT HfT HsT HiS.
+  intros Hcl Hac Hio Hsub Hx HE Hsh HclT HacT HfT HsT.
   assert (HclS : closed SC) by apply Hsub.
   assert (HacS : acyclic SC) by (by eapply sub_acyclic).
   assert (HioS : inputs_only SC) by (by eapply sub_inputs_only).
-  split; [done|by apply ext_of_acyclic|].
+  split; try done.
+  { destruct (ss_sat _ _ _ _ Hsh) as (j & Hj & _). apply elem_of_dom. eauto. }
   intros ρ v Hv Hag.
   rewrite (sens_shape_spec SC x E T HclS HacS HioS Hx HE Hsh v Hv).
   rewrite (sens_at_sub SC c x (elements E) v Hsub Hcl Hac Hx) by (intros e He%elem_of_elements; by apply HE).
@@ -826,7 +841,7 @@ Proof.
   rewrite <- (sens_at_sub SC c x (elements E) v Hsub Hcl Hac Hx) by (intros e He%elem_of_elements; by apply HE).
   apply sens_at_ext; try done.
   - intros e He%elem_of_elements. by apply HE.
-  - intros s Hs. apply Hag. apply (free_is_input SC s HioS) in Hs. rewrite HiS in Hs. by apply elem_of_list_to_set in Hs.
+  - intros s Hs. apply Hag. apply (free_is_input SC s HioS) in Hs. apply elem_of_elements. by rewrite HsT.
 Qed.
 
 (* ================================================================================================ *)
@@ -1077,6 +1092,22 @@ Qed.
 
 From CG Require Import Base.Cases.
 
+
+(* ... and brute-force counting is an exact model counter in the sense of mc_exact *)
+Definition bf_count (T : circuit) (asm : list (string * bool)) : nat :=
+  length (filter (λ ρ, asm_holdsb asm (evalc T ρ) = true) (all_vals (elements (startpoints T)))).
+Theorem bf_count_exact : mc_exact bf_count.
+Proof.
+  intros T asm P Hcl Hac Hfree Hasm HP. unfold bf_count. f_equal. apply list_filter_iff. intros ρ.
+  rewrite HP, asm_holdsb_spec. split.
+  - intros H. exists (evalc T ρ). split; [by apply evalc_consistent|]. split; [|done].
+    intros s Hs. rewrite <- Hfree in Hs. unfold free_nodes in Hs. apply elem_of_dom in Hs as [i Hi].
+    apply map_filter_lookup_Some in Hi as [Hi Hf]. by eapply evalc_free.
+  - intros (v & Hv & Hag & H).
+    assert (Heq : agrees (dom T) v (evalc T ρ)).
+    { apply evalc_agrees; try done. intros s Hs. apply Hag. by rewrite <- Hfree. }
+    unfold asm_holds in *. rewrite Forall_forall in H |- *. intros p Hp. rewrite <- (Heq p.1) by (by apply Hasm). by apply H.
+Qed.
 
 (* ================================================================================================ *)
 (* 16. the oracle's certificates: an accepted node order makes mk_g closed and acyclic; the list-level consistency
